@@ -84,27 +84,37 @@ def check_atomics_kept(ck, K, g):
                                 "## features: atomic-dropped\n" + K.src(), name="okl")
 
 
-def exec_round(ck, hb, kernels, label, modes=None):
-    """translate, compile, run; report every difference as an oracle violation with the OKL source as replay"""
-    tr = G.translate_all(ck, hb, kernels)
-    tus = {}
-    for m in (modes or MODES):
-        items = [(K, g[m]) for K, (g, oo) in zip(kernels, tr) if g and g.get(m)]
-        if items:
-            tus[m] = (G.build_tu(m, items), ["-fopenmp"] if m == "openmp" else [])
-    for K, (g, oo) in zip(kernels, tr):
-        if g is not None and K.name == "kf65":
-            check_atomics_kept(ck, K, g)
-        if g is None:
-            ck.oracle_violation("translator crashed or failed on a generated rule-conforming kernel: %s" % "; ".join(oo)[:200], K.src(), name="okl")
-        else:
-            for m in MODES:
-                if g.get(m) is None and not (m in ("cuda", "hip") and "atomic-general" in K.meta["feats"]):
-                    ck.oracle_violation("translator %s rejects a generated rule-conforming kernel" % m, K.src(), name="okl")
-    res = G.compile_and_run(ck, label, tus)
-    byname = {K.name: K for K in kernels}
+def exec_rounds(ck, hb, rounds):
+    """rounds: [(label, kernels, modes or None)].  All translation units of all rounds are compiled and run together;
+    every difference is reported as an oracle violation with the OKL source as replay."""
+    tus, info = {}, {}
+    for label, kernels, modes in rounds:
+        if not kernels:
+            continue
+        tr = G.translate_all(ck, hb, kernels)
+        for K, (g, oo) in zip(kernels, tr):
+            if g is not None and K.name == "kf65":
+                check_atomics_kept(ck, K, g)
+            if g is None:
+                ck.oracle_violation("translator crashed or failed on a generated rule-conforming kernel: %s" % "; ".join(oo)[:200],
+                                    "##regen %d %s %s\n" % (ck.seed, ck.tier, K.name) + K.src(), name="okl")
+            else:
+                for m in MODES:
+                    if g.get(m) is None and not (m in ("cuda", "hip") and "atomic-general" in K.meta["feats"]):
+                        ck.oracle_violation("translator %s rejects a generated rule-conforming kernel" % m, K.src(), name="okl")
+        for m in (modes or MODES):
+            items = [(K, g[m]) for K, (g, oo) in zip(kernels, tr) if g and g.get(m)]
+            if items:
+                key = "%s__%s" % (label, m)
+                tus[key] = (G.build_tu(m, items), ["-fopenmp"] if m == "openmp" else [])
+                info[key] = (m, kernels)
+        ck.cov["evaluations"] += len(kernels)
+        ck.cov["distinct_nontrivial"] += len(set(K.src() for K in kernels))
+    res = G.compile_and_run(ck, "c20", tus)
     nrun = 0
-    for m, runs in res.items():
+    for key, runs in res.items():
+        m, kernels = info[key]
+        byname = {K.name: K for K in kernels}
         for env, rc, so, se in runs:
             if rc is None:
                 ck.oracle_violation("the %s translation does not compile (against the emulation headers): %s" % (m, first_error(se)),
@@ -128,9 +138,7 @@ def exec_round(ck, hb, kernels, label, modes=None):
                 missing = [K for K in kernels if K.name not in seen]
                 ck.oracle_violation("the %s translation crashed or was stopped by a sanitizer: %s" % (m, " | ".join(san)[:300] or "rc=%s" % rc),
                                     ("##regen %d %s %s\n" % (ck.seed, ck.tier, missing[0].name) + missing[0].src()) if missing else "", name="okl")
-    ck.cov["counters"]["kernel_mode_runs_" + label] = nrun
-    ck.cov["evaluations"] += len(kernels)
-    ck.cov["distinct_nontrivial"] += len(set(K.src() for K in kernels))
+    ck.cov["counters"]["kernel_mode_runs"] = ck.cov["counters"].get("kernel_mode_runs", 0) + nrun
     return res
 
 
@@ -179,18 +187,21 @@ def main(argv):
     for i in range(n_x):
         kernels.append(G.gen_kernel(ck.rng, name="x%d" % i, feats=feats))
     if regen:
-        exec_round(ck, hb, [K for K in kernels if K.name == regen], "c20_replay", modes=["serial", "openmp"] if regen == "kf67" else None)
+        exec_rounds(ck, hb, [("replay", [K for K in kernels if K.name == regen], ["serial", "openmp"] if regen == "kf67" else None)])
         ck.finish(META["level_text"])
     ck.correspond(hb, db, hs, label="okl-structure", timeout=1800, env=env,
                   nontrivial=lambda h, impl: any("serial=K" in o for o in impl))
     if hb:
         known = [K for K in kernels if K.name.startswith("kf")]
         gen = [K for K in kernels if not K.name.startswith("kf")]
-        # the canonical replays of the known findings run apart, so that a sanitizer stop there does not hide other kernels
-        exec_round(ck, hb, [K for K in known if K.name not in ("kf67", "kf68")], "c20_known")
-        exec_round(ck, hb, [K for K in known if K.name == "kf68"], "c20_known68")
-        exec_round(ck, hb, [K for K in known if K.name == "kf67"], "c20_known67", modes=["serial", "openmp"])
-        for lo in range(0, len(gen), 24):
-            exec_round(ck, hb, gen[lo:lo + 24], "c20_%d" % lo)
+        # the canonical replays of the known findings get translation units of their own, so that a sanitizer stop or a
+        # compile error there does not hide other kernels
+        rounds = [("known", [K for K in known if K.name not in ("kf67", "kf68")], None),
+                  ("known67", [K for K in known if K.name == "kf67"], ["serial", "openmp"]),
+                  ("known68", [K for K in known if K.name == "kf68"], ["serial", "cuda", "opencl"])]
+        per = 12 if ck.tier == "quick" else 24
+        rounds += [("gen%d" % lo, gen[lo:lo + per], None) for lo in range(0, len(gen), per)]
+        for lo in range(0, len(rounds), 10):
+            exec_rounds(ck, hb, rounds[lo:lo + 10])
     ck.cov["counters"]["features_seen"] = " ".join(sorted(feats))
     ck.finish(META["level_text"])
